@@ -180,6 +180,9 @@ func degOf(ind *reg.Indicator, j int) reg.Degree {
 }
 
 func c15(ctx *run.Ctx) {
+	for b := 0; b < ctx.Pick(4, 40); b++ {
+		ctx.Case(fmt.Sprintf("float32/%d", b), c15Float32)
+	}
 	nrand := ctx.Pick(6, 60)
 	lengths := []int{60, 160}
 	if !ctx.Quick() {
@@ -204,6 +207,18 @@ func c15(ctx *run.Ctx) {
 				}
 				if !okv {
 					continue
+				}
+			}
+			if ci <= 1 {
+				// long series: behaviour that only shows after a thousand values (periodic
+				// resynchronisation, drift of running sums)
+				for _, class := range []string{gen.Walk, gen.Plateau, gen.Degen} {
+					class := class
+					n := []int{1100, 2100}[ci]
+					ctx.Case(fmt.Sprintf("%s/cfg%d/%s/long%d", ind.Name, ci, class, n), func(cc *run.Case) {
+						cc.Desc(map[string]any{"indicator": ind.Name, "cfg": cfg, "class": class, "n": n})
+						c15Check(cc, ind, iv, cfg, class, indInputs(ind, gen.Bars(cc.R, class, n), nil))
+					})
 				}
 			}
 			for _, class := range gen.OHLCVClasses {
